@@ -50,7 +50,11 @@ struct Codec<UnorderedMapType<Key, T, Hash, KeyEqual, Allocator>,
       // of each string as we will be copying them directly to our queue buffer.
       for (auto const& elem : arg)
       {
-        total_size += Codec<std::pair<Key, T>>::compute_encoded_size(conditional_arg_size_cache, elem);
+        // elem is a std::pair<Key const, T>: passing it as std::pair<Key, T> const& would construct a
+        // temporary copy of the key and the value (a heap allocation on the hot path for strings and
+        // containers), so the two members are handled directly, in the same order as Codec<std::pair>
+        total_size += Codec<Key>::compute_encoded_size(conditional_arg_size_cache, elem.first);
+        total_size += Codec<T>::compute_encoded_size(conditional_arg_size_cache, elem.second);
       }
     }
 
@@ -65,8 +69,8 @@ struct Codec<UnorderedMapType<Key, T, Hash, KeyEqual, Allocator>,
 
     for (auto const& elem : arg)
     {
-      Codec<std::pair<Key, T>>::encode(buffer, conditional_arg_size_cache,
-                                       conditional_arg_size_cache_index, elem);
+      Codec<Key>::encode(buffer, conditional_arg_size_cache, conditional_arg_size_cache_index, elem.first);
+      Codec<T>::encode(buffer, conditional_arg_size_cache, conditional_arg_size_cache_index, elem.second);
     }
   }
 
